@@ -64,7 +64,7 @@ ApplyOp(st, op, i, c) ==
       live == st.live
       base(p) == IF p \in DOMAIN st.past THEN st.past[p] ELSE NoInfo
       fresh(p) == [revs |-> {}, authors |-> {}, first |-> "", arevs |-> base(p).revs, aauthors |-> base(p).authors, afirst |-> base(p).first]
-  IN  CASE op.op \in {"add", "addbin"} ->
+  IN  CASE op.op \in {"add", "addbin", "addlink"} ->
              [st EXCEPT !.live = [p \in DOMAIN live \cup {op.path} |-> IF p = op.path THEN touch(fresh(p)) ELSE live[p]]]
         [] op.op \in {"modify", "chmod"} ->
              [st EXCEPT !.live = [p \in DOMAIN live |-> IF p = op.path THEN touch(live[p]) ELSE live[p]]]
